@@ -6,6 +6,7 @@ package e2
 import (
 	"bytes"
 	"context"
+	"errors"
 	"fmt"
 	"math"
 	"sort"
@@ -291,15 +292,31 @@ func c17RegionStorage(rc *corepkg) {
 	}
 	crashed := false
 	flushes := 0
+	// disk errors: a write of the region kv fails (nothing written); the caller learns the error
+	diskErrors := rc.Knob("disk_errors", 3) == 1
+	maybe := map[uint64]bool{} // outcome unknown to the caller (its save / delete reported an error)
+	if diskErrors {
+		simdisk.WriteFault = func(node int, op string) error {
+			if s.Chance("disk.fault", 0.3) {
+				s.Count("fault.disk-write-error")
+				return errors.New("simdisk: injected: no space left on device")
+			}
+			return nil
+		}
+	}
 	runOn(rc, 0, "c17-rs-writer", func() {
 		ids := idSet(rc, nRegions, "region")
 		for i, id := range ids {
 			r := &metapb.Region{Id: id, StartKey: keyOf(i, 0), EndKey: keyOf(i+1, 0), RegionEpoch: &metapb.RegionEpoch{ConfVer: 1, Version: 1}, Peers: []*metapb.Peer{{Id: id/2 + 1, StoreId: 1}}}
 			if err := st.SaveRegion(r); err != nil {
-				rc.Anomaly("save region: %v", err)
-				return
+				if !diskErrors {
+					rc.Anomaly("save region: %v", err)
+					return
+				}
+				maybe[id] = true // reported as failed: may or may not be there later
+			} else {
+				pending[id] = marshal(r)
 			}
-			pending[id] = marshal(r)
 			delete(deleted, id)
 			if s.Choose(25, "rs.del") == 0 && len(durable) > 0 {
 				// delete a durable region (deletes go straight to leveldb)
@@ -308,14 +325,20 @@ func c17RegionStorage(rc *corepkg) {
 						delete(durable, did)
 						delete(pending, did)
 						deleted[did] = true
+					} else {
+						delete(durable, did)
+						maybe[did] = true
 					}
 					break
 				}
 			}
 			if s.Choose(30, "rs.flush") == 0 {
 				if err := st.Flush(); err != nil {
-					rc.Anomaly("flush: %v", err)
-					return
+					if !diskErrors {
+						rc.Anomaly("flush: %v", err)
+						return
+					}
+					continue // nothing acknowledged: the saves stay pending
 				}
 				flushes++
 				for k, v := range pending {
@@ -331,6 +354,7 @@ func c17RegionStorage(rc *corepkg) {
 				simrt.Sleep(time.Duration(s.Choose(4000, "rs.sleep.d")) * time.Millisecond)
 			}
 		}
+		simdisk.WriteFault = nil
 		if err := st.Close(); err != nil {
 			rc.Anomaly("close: %v", err)
 			return
@@ -340,6 +364,7 @@ func c17RegionStorage(rc *corepkg) {
 		}
 		pending = map[uint64][]byte{}
 	})
+	simdisk.WriteFault = nil
 	if len(rc.Anoms) > 0 {
 		return
 	}
@@ -382,7 +407,7 @@ func c17RegionStorage(rc *corepkg) {
 			return
 		}
 		if !bytes.Equal(g, w) {
-			if _, maybeNewer := pending[id]; !maybeNewer {
+			if _, maybeNewer := pending[id]; !maybeNewer && !maybe[id] {
 				rc.Violate("c17.regions", "region-loaded-differently", "region %d loaded differently from its last durable save", id)
 				return
 			}
@@ -394,6 +419,9 @@ func c17RegionStorage(rc *corepkg) {
 		}
 		if _, ok := pending[id]; ok {
 			continue // saved but not covered by a flush: may or may not survive
+		}
+		if maybe[id] {
+			continue // its save / delete reported an error
 		}
 		rc.Violate("c17.regions", "deleted-or-unknown-region-loaded", "region %d is loaded but was deleted or never saved (deleted=%v)", id, deleted[id])
 		return
